@@ -234,91 +234,143 @@ func c01Check(c *Ctx, s *Sys, signedTo map[int]map[int]bool) {
 type startKind int
 
 func genC07(c *Ctx) {
-	c.Rep.Rule = "start patterns {query by one side, queries by both, whitespace tag, error-triggered, Send under require-encryption, refresh while encrypted} x policy/version pairs sharing a version x delivery interleavings of the two FIFO queues (exhaustive for short exchanges in the thorough tier, random otherwise); compared with the abstract machine; oracle: at quiescence both sides are encrypted with one common SSID"
-	n := 14
+	c.Rep.Rule = "start configurations {query by one side, queries by both, whitespace tag sent once / twice, error-triggered, Send under require-encryption once / twice, refresh by one / both} x version-policy pairs; the user actions of a configuration and the deliveries of the two FIFO queues are interleaved in EVERY possible order (stateless exploration with backtracking; capped per configuration in the quick tier, the cap is reported); every schedule's quiescent state is judged: both sides encrypted with one common SSID; a sample of the schedules is replayed on the abstract machine"
+	cap := 120
 	if c.Thorough() {
-		n = 400
+		cap = 4000
 	}
-	kinds := []string{"query-one", "query-both", "whitespace", "error-start", "require-send", "refresh", "refresh-both"}
-	for i := 0; i < n; i++ {
-		kind := kinds[i%len(kinds)]
-		pa, pb := c.pickVersionPolicy(), c.pickVersionPolicy()
-		if pa&pb&(polV2|polV3) == 0 {
-			pb = pa
+	type action func(s *Sys)
+	type config struct {
+		name    string
+		pa, pb  int
+		prefix  func(s *Sys) bool
+		actions []action
+	}
+	q12 := func(s *Sys) { s.Query(1, 2) }
+	q21 := func(s *Sys) { s.Query(2, 1) }
+	send1 := func(t string) action { return func(s *Sys) { s.Send(1, []byte(t)) } }
+	errTo2 := func(s *Sys) {
+		s.Inject(2, []byte("?OTR Error: please"), fmt.Sprintf("WError %s", coqBytes([]byte("please"))))
+	}
+	established := func(s *Sys) bool {
+		if !s.Handshake(1, 2) {
+			return false
 		}
-		switch kind {
-		case "whitespace":
-			pa |= polSendWS
-			pb |= polWSStart
-		case "error-start":
-			pb |= polErrStart
-		case "require-send":
-			pa |= polRequire
+		s.tick(130)
+		return true
+	}
+	var configs []config
+	for _, vp := range [][2]int{{polV3, polV3}, {polV2, polV2 | polV3}, {polV2 | polV3, polV3}} {
+		configs = append(configs,
+			config{"query-one", vp[0], vp[1], nil, []action{q12}},
+			config{"query-both", vp[0], vp[1], nil, []action{q12, q21}},
+			config{"whitespace", vp[0] | polSendWS, vp[1] | polWSStart, nil, []action{send1("hello")}},
+			config{"whitespace-twice", vp[0] | polSendWS, vp[1] | polWSStart, nil, []action{send1("hello"), send1("hello again")}},
+			config{"error-start", vp[0], vp[1] | polErrStart, nil, []action{errTo2}},
+			config{"require-send", vp[0] | polRequire, vp[1], nil, []action{send1("needs encryption")}},
+			config{"require-send-twice", vp[0] | polRequire, vp[1], nil, []action{send1("needs encryption"), send1("this one too")}},
+			config{"refresh", vp[0], vp[1], established, []action{q12}},
+			config{"refresh-both", vp[0], vp[1], established, []action{q12, q21}},
+		)
+	}
+	for ci, cf := range configs {
+		if !c.Thorough() && ci >= 9 && ci%3 != 0 { // quick: all nine with the first policy pair, a third of the rest
+			continue
 		}
-		pols := []int{pa, pb}
-		s := newSys(pols, c.R.U64())
-		collision := false
-		switch kind {
-		case "query-one":
-			s.Query(1, 2)
-		case "query-both":
-			s.Query(1, 2)
-			s.Query(2, 1)
-		case "whitespace":
-			s.Send(1, []byte("hello"))
-		case "error-start":
-			s.Inject(2, []byte("?OTR Error: please"), fmt.Sprintf("WError %s", coqBytes([]byte("please"))))
-		case "require-send":
-			s.Send(1, []byte("needs encryption"))
-		case "refresh", "refresh-both":
-			if !s.Handshake(1, 2) {
-				c.Violate("handshake-failed", kind, "initial handshake did not complete", s.trace)
-				continue
+		seed := c.R.U64()
+		// one execution: follow the choices (0 = next user action, 1 / 2 = deliver the head of that party's queue),
+		// then always the first enabled choice; record what was enabled at every step
+		run := func(choices []int) (s *Sys, taken []int, enabled [][]int, collision bool, ok bool) {
+			pols := []int{cf.pa, cf.pb}
+			s = newSys(pols, seed)
+			if cf.prefix != nil && !cf.prefix(s) {
+				return s, nil, nil, false, false
 			}
-			s.tick(130)
-			s.Query(1, 2)
-			if kind == "refresh-both" {
-				s.Query(2, 1)
-			}
-		}
-		// random interleaving of the two FIFO queues until quiescence
-		for k := 0; k < 60; k++ {
-			var cands []int
-			for who := 1; who <= 2; who++ {
-				p := s.ps[who]
-				for p.pending < len(p.outs) && p.skip[p.pending] {
-					p.pending++
+			next := 0
+			for step := 0; step < 80; step++ {
+				var en []int
+				if next < len(cf.actions) {
+					en = append(en, 0)
 				}
-				if p.pending < len(p.outs) {
-					cands = append(cands, who)
+				for who := 1; who <= 2; who++ {
+					p := s.ps[who]
+					for p.pending < len(p.outs) && p.skip[p.pending] {
+						p.pending++
+					}
+					if p.pending < len(p.outs) {
+						en = append(en, who)
+					}
+				}
+				if len(en) == 0 {
+					break
+				}
+				ch := en[0]
+				if step < len(choices) {
+					ch = choices[step]
+				}
+				enabled = append(enabled, en)
+				taken = append(taken, ch)
+				if ch == 0 {
+					cf.actions[next](s)
+					next++
+				} else {
+					idx := s.next(ch)
+					w := parseWire(s.ps[ch].outs[idx])
+					if w.kind == 3 && w.typ == 0x02 && otr3.VerifSnapshot(s.ps[3-ch].c).AKEState == 1 {
+						collision = true
+					}
+					s.Deliver(ch, idx, 3-ch, MNone)
 				}
 			}
-			if len(cands) == 0 {
+			return s, taken, enabled, collision, true
+		}
+		explored, capped := 0, false
+		var choices []int
+		for {
+			s, taken, enabled, collision, ok := run(choices)
+			if !ok {
+				c.Violate("handshake-failed", cf.name, "initial handshake did not complete", s.trace)
 				break
 			}
-			f := cands[c.R.Intn(len(cands))]
-			idx := s.next(f)
-			w := parseWire(s.ps[f].outs[idx])
-			if w.kind == 3 && w.typ == 0x02 && otr3.VerifSnapshot(s.ps[3-f].c).AKEState == 1 {
-				collision = true
+			explored++
+			good := s.ps[1].c.IsEncrypted() && s.ps[2].c.IsEncrypted() && s.ps[1].c.GetSSID() == s.ps[2].c.GetSSID()
+			if !good {
+				trig := cf.name
+				if collision {
+					trig = "commit-collision"
+				}
+				c.Violate("ake-incomplete", trig, fmt.Sprintf("schedule %v: at quiescence encrypted=%v/%v, same ssid=%v", taken, s.ps[1].c.IsEncrypted(), s.ps[2].c.IsEncrypted(), s.ps[1].c.GetSSID() == s.ps[2].c.GetSSID()), s.trace)
 			}
-			s.Deliver(f, idx, 3-f, MNone)
-		}
-		c.Count("start:" + kind)
-		ok := s.ps[1].c.IsEncrypted() && s.ps[2].c.IsEncrypted() && s.ps[1].c.GetSSID() == s.ps[2].c.GetSSID()
-		if !ok {
-			trig := kind
-			if collision {
-				trig = "commit-collision"
+			if s.panicked {
+				c.Violate("panic", cf.name, "a call panicked", s.trace)
 			}
-			c.Violate("ake-incomplete", trig, fmt.Sprintf("at quiescence: encrypted=%v/%v, same ssid=%v", s.ps[1].c.IsEncrypted(), s.ps[2].c.IsEncrypted(), s.ps[1].c.GetSSID() == s.ps[2].c.GetSSID()), s.trace)
+			if explored%6 == 1 {
+				c.AddScenario(s, []int{cf.pa, cf.pb})
+			} else {
+				c.Rep.Evaluations++
+			}
+			// backtrack: the last step at which another enabled choice has not been taken yet
+			k := len(taken) - 1
+			for ; k >= 0; k-- {
+				pos := 0
+				for i, e := range enabled[k] {
+					if e == taken[k] {
+						pos = i
+					}
+				}
+				if pos+1 < len(enabled[k]) {
+					choices = append(append([]int{}, taken[:k]...), enabled[k][pos+1])
+					break
+				}
+			}
+			if k < 0 {
+				break
+			}
+			if explored >= cap {
+				capped = true
+				break
+			}
 		}
-		if s.panicked {
-			c.Violate("panic", kind, "a call panicked", s.trace)
-		}
-		c.AddScenario(s, pols)
-		if i < 2 {
-			c.Sample(s.trace[:min2(10, len(s.trace))])
-		}
+		c.Count(fmt.Sprintf("start:%s:schedules=%d:exhaustive=%v", cf.name, explored, !capped))
 	}
 }
